@@ -75,6 +75,19 @@ Theorem C17_range_container_rejects : forall fd e, fd_cont fd = CRange -> e_op e
   (parse_range (e_op e) true (e_val e) = PErr <-> expr_sem fd e = None).
 Proof. exact parse_range_err_iff. Qed.
 
+(* a range holder configured with EnableFloat2Int = false (RangeHolderOption): a float operand of > or < is an
+   error rather than the truncated bound; integer operands and between pairs are read as in the stock configuration
+   (tied to the code by the parser-level cases PCRangeNF, Corr/CheckParse.v) *)
+Theorem C17_range_container_without_float_conversion :
+  (forall op b f, op = OpGT \/ op = OpLT -> parse_range op false (VFloat b f) = PErr) /\
+  (forall op k z, parse_range op false (VInt k z) = parse_range op true (VInt k z)) /\
+  (forall v, parse_range OpBetween false v = parse_range OpBetween true v).
+Proof. exact parse_range_nf_spec. Qed.
+Example C17_without_float_conversion_nonvacuous :
+  parse_range OpGT true (VFloat false (Build_fl 18%Z true FFinite [49;56]%N)) <> PErr /\
+  parse_range OpGT false (VFloat false (Build_fl 18%Z true FFinite [49;56]%N)) = PErr.
+Proof. split; [vm_compute; discriminate | reflexivity]. Qed.
+
 Print Assumptions C17_tables_within_universe.
 Print Assumptions C17_common_value_exact.
 Print Assumptions C17_number_value_exact.
@@ -88,3 +101,4 @@ Print Assumptions C17_total.
 Print Assumptions C17_range_helpers_total.
 Print Assumptions C17_range_desc_refuses_bad_step.
 Print Assumptions C17_enum_range_exact.
+Print Assumptions C17_range_container_without_float_conversion.
